@@ -1,17 +1,45 @@
 /-
 C19 — the output file holds one intact record per response under any parallelism.
 
-Model: `Compass/Model/Sink.lean` (CsvMapping, the two output formats, WriteMode, ResponseSink::File as a
-state machine whose `write` is one atomic step, Combined sinks, the two batch runners as schedules of
-worker steps).  Helper lemmas: `Compass/Proofs/Sink.lean`.
+Models.  `Model/Sink.lean`: CsvMapping, the two output formats, WriteMode, `ResponseSink::File` as a state
+machine whose `write` is ONE step (the ATOMIC model), Combined sinks, the batch runners as schedules of worker
+steps, `CompassApp::run`'s response assembly.  `Model/SinkFine.lean`: the SMALL-STEP model of `write_response`
+— acquire the guards, format, one or several `write` calls, count, release — in which the lock is state and the
+steps of different workers interleave.  `Model/SinkRead.lean`: readers (JSON, RFC 4180).
 
-What is trusted and not proved here: the atomicity of one `write_response` (it holds `std::sync::Mutex`
-guards on the file and the counter for its whole body) and the append semantics of the OS file handle; real
-thread interleavings are sampled by the concurrent harness runs.  I/O errors and appends from other
-processes are outside the model.
+How the parts fit.  Sections 5, 5b, 6, 7 are theorems about the atomic model: there a record cannot be split or
+interleaved BY CONSTRUCTION (a step appends a whole chunk); what they prove is "none lost, none duplicated, the
+counter, what is handed back, for every schedule".  Section 5c proves that the small-step model WITH the guard
+refines the atomic model for every interleaving of the small steps (and that without the guard it does not):
+this is where "not truncated, not interleaved" is a theorem about the mutex.  Section 5a: Combined sinks, whose
+members have separate locks.
+
+Trusted, not proved: `std::sync::Mutex` gives mutual exclusion (the small-step model's `lock` field behaves like
+it); a `write` call on a handle opened in append mode lands whole at the end of the file (`O_APPEND`; used for
+several sinks on one file and for other processes, section 5c); that the Rust code has the shape of the models
+is checked differentially by the harness, with real threads only sampling the interleavings.
+
+Modelled rather than verified (the theorems do not speak about these):
+* one lock stands for the two guards (file, counter), which the code always takes in this order;
+* the formatter's mapping-error messages are not modelled (empty strings) and the failed columns are listed in
+  column order, while the code collects them in a `HashMap` (random order of two or more failed columns);
+* numbers are lexemes plus abstract doubles (`NumOps`): the JSON round trip is about the text (`eraseBits`);
+* `flushEvery = 0` is accepted by the theorems (`% 0` would panic in Rust; `build` never produces it);
+* I/O failures are coarse: a record is written whole or not at all (a real `write_all` can stop half way), and
+  after a failed write the batch model lets a worker go on (true of `run_batch_without_responses`; the
+  persisting runner stops that worker — only "the run is an error" is modelled for it);
+* every worker finishes (`Complete`, `finished`, `done` are hypotheses: no theorem about termination);
+* an Append run on an existing file that lacks a final newline glues its first record to the last line, and on
+  an existing EMPTY file writes no header (the theorems say `first ++ records`; "single header" means "written
+  only when the file is created");
+* a one-column CSV whose cell is empty is written as a blank line, which some CSV readers skip;
+* `open_file_spec`, `header_text_spec`, `open_path_spec`, `open_path_on_files`, `close_spec` restate
+  definitions of the model: the behaviour of paths, devices and modes is established by the differential run.
 -/
 import Compass.Proofs.Sink
 import Compass.Proofs.SinkRead
+import Compass.Proofs.SinkFine
+import Compass.Proofs.SinkCombined
 
 namespace Compass
 namespace C19
@@ -55,7 +83,8 @@ def anyNum : NumOps := { sum := fun _ => 0, finite := fun _ => true, fmt := fun 
 text`): every written CSV row reads back, under RFC 4180 rules (`SinkRead.readRow`: quoted fields, `""` for
 a quote, commas and line breaks allowed inside quotes), into exactly as many fields as the header has, and
 field `i` is the value of column `i`: a string's text, any other value's JSON text, empty when the mapping
-failed — for every response, mapping (paths, sums, optional), orientation. -/
+failed — for every response, every mapping with at least one column (paths, sums, optional; with NO column the
+header is an empty line and every row a blank line, which reads back as one empty field), both orientations. -/
 theorem csv_row_reads_back (N : NumOps) (mapping : List (String × CsvMapping)) (sorted : Bool) (r : Json)
     (hne : mapping ≠ []) :
     SinkRead.readRow (csvRow N (rowColumns mapping sorted) r)
@@ -258,7 +287,8 @@ example : ¬ Writable anyNum (.csv [("a", .path "a")] false) (.num "3" 0) := by
 
 /-- `WriteMode::Append` (the only mode `ResponseOutputPolicy::build` uses) leaves an existing file exactly as
 it is — no second header — and starts a missing file with the header; `Overwrite` always starts over with
-the header; `Error` refuses an existing file -/
+the header; `Error` refuses an existing file 
+(Restates the model's definition — no proof about the code: the behaviour is tied to the Rust by the differential run.) -/
 theorem open_file_spec (f : Format) (c : List Char) :
     openFile .append f (some c) = some c ∧
     openFile .append f none = some (headerText f) ∧
@@ -268,7 +298,8 @@ theorem open_file_spec (f : Format) (c : List Char) :
     openFile .error f none = some (headerText f) := by
   simp [openFile]
 
-/-- the header of a CSV file is the comma-joined (CSV-escaped) column names and a newline; newline-delimited JSON has none -/
+/-- the header of a CSV file is the comma-joined (CSV-escaped) column names and a newline; newline-delimited JSON has none 
+(Restates the model's definition — no proof about the code: the behaviour is tied to the Rust by the differential run.) -/
 theorem header_text_spec (mapping : List (String × CsvMapping)) (sorted : Bool) :
     headerText (.csv mapping sorted)
       = joinWith [','] ((headerKeys mapping sorted).map fun k => csvField k.toList) ++ ['\n'] ∧
@@ -305,7 +336,8 @@ theorem build_ok_spec (mode : WriteMode) (f : Format) (rate : Option Int) (exist
 
 /-! ## 5. One record per response for every schedule -/
 
-/-- MAIN.  Workers own queues of responses; a schedule is ANY list of worker ids; a step lets the scheduled
+/-- ATOMIC MODEL (a `write_response` is one step here, so "whole" records are by construction — the guard that
+makes this the right model is section 5c).  Workers own queues of responses; a schedule is ANY list of worker ids; a step lets the scheduled
 worker write its next response (one atomic `write_response`).  Whatever the schedule, as long as the
 responses are writable (objects are): the file is what it was at the start followed by exactly one whole
 record per response written so far, in the order `trace` in which the lock was taken; the written
@@ -482,13 +514,113 @@ example :
 
 /-! ## 5a. Combined sinks -/
 
-/-- a Combined policy (flattened depth-first) hands an object response to every member in turn; each member
-file gets exactly one record and one count, and the response stays an object (so the next one can be
-written too).  Member `i` writes the response as members `< i` left it. -/
-theorem combined_sink_appends_one_record_to_every_member (N : NumOps) (ss : List FileSink) (r : Json)
+/-- what one Combined `write_response` does, exactly (a Combined policy is flattened depth-first): on healthy
+members and an object response it succeeds; member `i` appends the record of the response AS MEMBERS `< i`
+AMENDED IT and counts it; the response handed back is the response amended by every member in turn -/
+theorem combined_write_spec (N : NumOps) (ss : List FileSink) (r : Json)
     (hp : ∀ s ∈ ss, s.Healthy) (hr : r.isObject = true) :
-    ∃ ss' r', writeCombined N ss r = .ok ss' r' ∧ r'.isObject = true ∧ AppendedOne ss ss' :=
-  writeCombined_objects N ss r hp hr
+    ∃ ss', writeCombined N ss r = .ok ss' (amendBy N (ss.map (·.format)) r) ∧ ss'.length = ss.length ∧
+      ∀ i s, ss[i]? = some s → ∃ s', ss'[i]? = some s' ∧
+        s'.file = s.file ++ [recordOf N s.format (amendBy N ((ss.map (·.format)).take i) r)] ∧
+        s'.iterations = s.iterations + 1 ∧ s'.format = s.format ∧ s'.Healthy :=
+  writeCombined_spec N ss r hp hr
+
+/-- FULL: a Combined write never removes or replaces anything in the response, whatever the members (any number
+of CSV files, any mappings) — the general form of the repaired `csv_error` defect -/
+theorem combined_write_never_loses_information (N : NumOps) (ss : List FileSink) (r : Json)
+    (ss' : List FileSink) (r' : Json) (h : writeCombined N ss r = .ok ss' r') :
+    ∀ k v, r.get? k = some v → r'.get? k = some v :=
+  writeCombined_never_loses N ss r ss' r' h
+
+/-- A BATCH ON A COMBINED SINK, every schedule.  The members have separate locks: a worker is inside one member
+at a time and holds nothing between two members, so workers overtake each other between members (`RunC`: a
+step is one worker's next member write).  For every schedule and every member `i`: its file is what it was
+followed by exactly one whole record per response that has reached it — the record of that response as members
+`< i` amended it; written and not-yet-arrived responses together are a permutation of the batch; when the
+batch is complete the records of member `i` are the multiset `{record_i (amend_{<i} r) | r ∈ batch}`.
+Hypotheses: healthy members, object responses (what the application produces).  Each member write is one step
+here; that this is right for each member is section 5c. -/
+theorem combined_batch_member_file (N : NumOps) (persist : Bool) (sinks : List FileSink)
+    (queues : List (List Json)) (schedule : List Nat) (i : Nat) (si : FileSink)
+    (hh : ∀ s ∈ sinks, s.Healthy) (hobj : ∀ r ∈ queues.flatten, r.isObject = true)
+    (hi : sinks[i]? = some si) :
+    let fmts := sinks.map (·.format)
+    let final := (RunC.init sinks queues).exec N persist schedule
+    ∃ (si' : FileSink) (trace : List Json),
+      final.sinks[i]? = some si' ∧
+      si'.file = si.file ++ trace.map (recordOf N si.format) ∧
+      si'.iterations = si.iterations + trace.length ∧
+      (trace ++ (final.workers.map (projQueue N fmts i)).flatten).Perm
+        (queues.flatten.map (amendBy N (fmts.take i))) ∧
+      (final.done = true → trace.Perm (queues.flatten.map (amendBy N (fmts.take i)))) := by
+  intro fmts final
+  have hstage : ∀ r, advance N fmts 0 i r = amendBy N (fmts.take i) r := by
+    intro r; simp [advance]
+  let A0 : Run := Run.init si (queues.map (fun q => q.map (advance N fmts 0 i)))
+  have hg0 : GoodC fmts (RunC.init sinks queues) := by
+    refine ⟨hh, rfl, ?_, ?_, rfl⟩
+    · intro wk hwk r hr
+      obtain ⟨q, hq, rfl⟩ := List.mem_map.1 hwk
+      exact hobj r (List.mem_flatten.2 ⟨q, hq, hr⟩)
+    · intro wk hwk r j hc
+      obtain ⟨q, _, rfl⟩ := List.mem_map.1 hwk
+      simp at hc
+  have hs0 : SimC N fmts i (RunC.init sinks queues) A0 := by
+    refine ⟨hi, ?_⟩
+    simp only [A0, Run.init, RunC.init, List.map_map]
+    apply List.map_congr_left
+    intro q _
+    simp [projQueue]
+  obtain ⟨as, _, hsim⟩ := execC_sim N persist fmts i schedule _ A0 hg0 hs0
+  have hwA : ∀ r ∈ A0.queues.flatten, Writable N A0.sink.format r := by
+    intro r hr
+    simp only [A0, Run.init, List.mem_flatten, List.mem_map] at hr
+    obtain ⟨l, ⟨q, hq, rfl⟩, hr⟩ := hr
+    obtain ⟨r0, hr0, rfl⟩ := List.mem_map.1 hr
+    apply writable_of_obj_or_null
+    left
+    rw [hstage]
+    exact isObject_amendBy N _ r0 (hobj r0 (List.mem_flatten.2 ⟨q, hq, hr0⟩))
+  obtain ⟨t, hprog⟩ := exec_progress N false as A0 (hh si (List.mem_of_getElem? hi)) hwA (by simp [A0, Run.init])
+  have hbatch : A0.queues.flatten = queues.flatten.map (amendBy N (fmts.take i)) := by
+    simp only [A0, Run.init]
+    rw [List.map_flatten]
+    congr 1
+    first
+      | (apply List.map_congr_left
+         intro q _
+         apply List.map_congr_left
+         intro r _
+         exact hstage r)
+      | (funext r; exact hstage r)
+      | skip
+  have hperm := hprog.queues
+  rw [hsim.queues, hbatch] at hperm
+  refine ⟨_, t, hsim.sink, hprog.file, hprog.iterations, hperm, ?_⟩
+  intro hdone
+  have hnil : (final.workers.map (projQueue N fmts i)).flatten = [] := by
+    apply List.flatten_eq_nil_iff.2
+    intro l hl
+    obtain ⟨wk, hwk, rfl⟩ := List.mem_map.1 hl
+    have := List.all_eq_true.1 hdone wk hwk
+    simp only [Bool.and_eq_true, List.isEmpty_iff, Option.isNone_iff_eq_none] at this
+    simp [projQueue, this.1, this.2]
+  rw [hnil, List.append_nil] at hperm
+  exact hperm
+
+example :
+    let mk := fun (f : Format) =>
+      ({ format := f, flushEvery := 1, file := [[]], iterations := 0, flushes := 0, poisoned := false } : FileSink)
+    let csv1 := mk (.csv [("distance", .path "route.distance")] false)
+    let json := mk (.json true)
+    let a := Json.obj [("request", .num "1" 0), ("error", .str "no path")]
+    let b := Json.obj [("request", .num "2" 0), ("route", .obj [("distance", .num "3.5" 0)])]
+    -- two workers overtaking each other between the members: b reaches the JSON member before a
+    let final := (RunC.init [csv1, json] [[a], [b]]).exec anyNum true [0, 0, 1, 1, 1, 0, 0, 1]
+    final.done = true ∧
+    (final.sinks.map FileSink.contents) = [txt "\n3.5\n",
+      txt "{\"request\":2,\"route\":{\"distance\":3.5}}\n{\"request\":1,\"error\":\"no path\",\"csv_error\":{\"csv\":{\"distance\":\"\"}}}\n"] := by
+  decide
 
 /-! ## 5b. `CompassApp::run`: every response of the batch has its record -/
 
@@ -551,6 +683,185 @@ example : Complete [[Json.null, .null], [], [.null]] (sequentialSchedule [[Json.
     Complete [[Json.null, .null], [], [.null]] [2, 0, 5, 0, 1] ∧ ¬ Complete [[Json.null, .null], [], [.null]] [0, 2] := by
   unfold Complete; decide
 
+/-! ## 5c. The guard: "not truncated, not interleaved" as a theorem about the lock -/
+
+open SinkFine in
+/-- REFINEMENT.  In the small-step model (`Model/SinkFine.lean`: acquire, format, one or SEVERAL `write` calls
+per record — any `split` whose pieces concatenate to the buffer —, count, release; any list of worker ids as
+schedule; a worker that wants a taken lock does not move) WITH the guard, every interleaving of the small steps
+is in step with a run of the atomic model under some schedule of its own — the order in which the lock was
+released: same queues, same responses handed back, and the file text and counter equal as soon as nobody is
+inside `write_response`.  Hypotheses: a healthy sink, writable responses (objects are). -/
+theorem guarded_small_steps_refine_atomic (c : Config) (sink : FileSink) (queues : List (List Json))
+    (schedule : List Nat) (hg : c.guard = true) (hsplit : ∀ t, (c.split t).flatten = t)
+    (hf : sink.format = c.format) (hh : sink.Healthy)
+    (hw : ∀ r ∈ queues.flatten, Writable c.N c.format r) :
+    ∃ atomic : List Nat,
+      let st := exec c (SinkFine.init sink.file sink.iterations queues) schedule
+      let A := (Run.init sink queues).exec c.N c.persist atomic
+      st.workers.map (·.queue) = A.queues ∧ st.workers.map (·.returned) = A.returned ∧
+      st.failed = 0 ∧ st.poisoned = false ∧
+      (st.lock = none → st.contents = A.sink.contents ∧ st.iterations = A.sink.iterations) := by
+  have h0 := init_sim c sink queues hf hh
+  have hw0 : ∀ q ∈ (Run.init sink queues).queues, ∀ r ∈ q, Writable c.N c.format r := by
+    intro q hq r hr
+    exact hw r (List.mem_flatten.2 ⟨q, hq, hr⟩)
+  obtain ⟨as, hsim⟩ := exec_sim c hg hsplit schedule _ _ h0 hw0
+  exact ⟨as, hsim.queues.symm, hsim.returned.symm, hsim.failed.1, hsim.notPoisoned,
+    fun hl => sim_unlocked c _ _ hsim hl⟩
+
+open SinkFine in
+/-- HEADLINE (S1 c, d).  With the guard, for every interleaving of the small steps of any number of workers
+and however the OS cuts the buffers: once every worker has finished, the file TEXT is what it was followed by
+whole records, one per response — the records of a permutation of the batch, none truncated, none interleaved,
+none lost, none duplicated — the counter has counted them, and (persist) each worker got back its amended
+responses in queue order. -/
+theorem guarded_finished_file_is_whole_records (c : Config) (sink : FileSink) (queues : List (List Json))
+    (schedule : List Nat) (hg : c.guard = true) (hsplit : ∀ t, (c.split t).flatten = t)
+    (hf : sink.format = c.format) (hh : sink.Healthy)
+    (hw : ∀ r ∈ queues.flatten, Writable c.N c.format r)
+    (hfin : (exec c (SinkFine.init sink.file sink.iterations queues) schedule).finished = true) :
+    ∃ written : List Json,
+      written.Perm queues.flatten ∧
+      (exec c (SinkFine.init sink.file sink.iterations queues) schedule).contents
+        = sink.contents ++ (written.map (recordOf c.N c.format)).flatten ∧
+      (exec c (SinkFine.init sink.file sink.iterations queues) schedule).iterations
+        = sink.iterations + queues.flatten.length ∧
+      (c.persist = true →
+        (exec c (SinkFine.init sink.file sink.iterations queues) schedule).workers.map (·.returned)
+          = queues.map (fun q => q.map (postOf c.N c.format))) := by
+  have h0 := init_sim c sink queues hf hh
+  have hw0 : ∀ q ∈ (Run.init sink queues).queues, ∀ r ∈ q, Writable c.N c.format r := by
+    intro q hq r hr
+    exact hw r (List.mem_flatten.2 ⟨q, hq, hr⟩)
+  obtain ⟨as, hsim⟩ := exec_sim c hg hsplit schedule _ _ h0 hw0
+  obtain ⟨hlock, hdone⟩ := finished_unlocked c _ _ hsim hfin
+  obtain ⟨hcont, hiter⟩ := sim_unlocked c _ _ hsim hlock
+  have hwA : ∀ r ∈ queues.flatten, Writable c.N sink.format r := by rw [hf]; exact hw
+  obtain ⟨t, hprog⟩ := exec_progress c.N c.persist as (Run.init sink queues) hh hwA (by simp [Run.init])
+  have hq := hprog.queues
+  rw [done_flatten_nil _ hdone, List.append_nil] at hq
+  refine ⟨t, hq, ?_, ?_, ?_⟩
+  · rw [hcont]
+    simp only [FileSink.contents, hprog.file, List.flatten_append]
+    rw [← hf]; rfl
+  · rw [hiter, hprog.iterations, hq.length_eq]; rfl
+  · intro hper
+    rw [← hsim.returned, ← hf]
+    rw [hper] at hdone ⊢
+    exact returned_in_query_order c.N sink queues as hh hwA hdone
+
+open SinkFine in
+/-- the guard is what does it: the same code WITHOUT the mutex, the buffer going out in two `write` calls (row,
+line break — what `writeln!` did before the repair; or any partial write), two workers: the two rows land
+before the two line breaks — a glued record and a blank one; with the guard the same schedule gives whole
+records -/
+theorem unguarded_two_call_write_interleaves_counterexample :
+    let a := Json.obj [("a", .num "1" 0)]
+    let b := Json.obj [("b", .num "2" 0)]
+    let cfg := fun g => ({ N := anyNum, format := .json true, persist := true, guard := g, split := rowThenNewline } : Config)
+    let sch := [0, 1, 0, 1, 0, 1, 0, 1, 0, 1, 0, 1, 0, 1, 1, 1, 1, 1, 1]
+    (exec (cfg false) (SinkFine.init [[]] 0 [[a], [b]]) sch).contents = txt "{\"a\":1}{\"b\":2}\n\n" ∧
+    (exec (cfg false) (SinkFine.init [[]] 0 [[a], [b]]) sch).finished = true ∧
+    (exec (cfg true) (SinkFine.init [[]] 0 [[a], [b]]) sch).contents = txt "{\"a\":1}\n{\"b\":2}\n" ∧
+    (exec (cfg true) (SinkFine.init [[]] 0 [[a], [b]]) sch).finished = true := by
+  decide
+
+open SinkFine in
+/-- SEVERAL SINKS ON ONE FILE (two members of a Combined policy with the same filename, two `run` calls at the
+same time, another process): each sink has its own mutex, so there is no common lock — covered by `guard`
+arbitrary.  After the repair `fix: a response record reaches the output file in one write` a record goes out
+in one `write` call (`split = oneCall`), and then for EVERY interleaving of the small steps, with or without
+lock: the file is what it was followed by whole records, one per record written; written and unwritten
+responses are a permutation of the batch; when all have finished the records are those of a permutation of the
+batch.  Rests on: a `write` on an append-mode handle lands whole at the end of the file (trusted, `O_APPEND`);
+`write_all` not being cut into several calls (true of regular files; otherwise only the guarded theorem
+holds). -/
+theorem one_call_records_whole_without_common_lock (c : Config) (file : List (List Char)) (iterations : Nat)
+    (queues : List (List Json)) (schedule : List Nat) (hone : c.split = oneCall)
+    (hw : ∀ r ∈ queues.flatten, Writable c.N c.format r) :
+    ∃ written : List Json,
+      (exec c (SinkFine.init file iterations queues) schedule).file
+        = file ++ written.map (recordOf c.N c.format) ∧
+      (written ++ ((exec c (SinkFine.init file iterations queues) schedule).workers.map pendingOf).flatten).Perm
+        queues.flatten ∧
+      ((exec c (SinkFine.init file iterations queues) schedule).finished = true → written.Perm queues.flatten) := by
+  have h := exec_whole c hone file queues.flatten schedule _ (init_whole c file iterations queues hw)
+  obtain ⟨trace, hf, hp⟩ := h.file
+  refine ⟨trace, hf, hp, ?_⟩
+  intro hfin
+  rw [finished_pending_nil _ hfin, List.append_nil] at hp
+  exact hp
+
+open SinkFine in
+/-- the witness of the repaired defect (`sink/aliased-handles-interleave`): with the two-call write of the old
+code and no common lock the records interleave; with the one-call write they are whole under the same
+schedule -/
+example :
+    let a := Json.obj [("a", .num "1" 0)]
+    let b := Json.obj [("b", .num "2" 0)]
+    let cfg := fun sp => ({ N := anyNum, format := .json true, persist := false, guard := false, split := sp } : Config)
+    let sch := [0, 1, 0, 1, 0, 1, 0, 1, 0, 1, 0, 1, 0, 1]
+    (exec (cfg rowThenNewline) (SinkFine.init [txt "h\n"] 0 [[a], [b]]) sch).contents = txt "h\n{\"a\":1}{\"b\":2}\n\n" ∧
+    (exec (cfg oneCall) (SinkFine.init [txt "h\n"] 0 [[a], [b]]) sch).contents = txt "h\n{\"a\":1}\n{\"b\":2}\n" := by
+  decide
+
+/-! ## 5d. The whole CSV file, as a reader cuts it -/
+
+/-- a first run on a missing path, any schedule: the reader's record splitter cuts the WHOLE file — header and
+all — into the header line followed by exactly the rows of the responses written, nothing left over.
+(`csv_rows_split_back` is the same for a bare sequence of rows.) -/
+theorem whole_csv_file_splits (N : NumOps) (persist : Bool) (m : List (String × CsvMapping)) (s : Bool)
+    (rate : Option Int) (sink : FileSink) (queues : List (List Json)) (schedule : List Nat)
+    (hb : build .append (.csv m s) rate none = .ok sink)
+    (hw : ∀ r ∈ queues.flatten, Writable N (.csv m s) r) :
+    ∃ trace : List Json, (trace ++ ((Run.init sink queues).exec N persist schedule).queues.flatten).Perm queues.flatten ∧
+      SinkRead.splitRecords ((Run.init sink queues).exec N persist schedule).sink.contents
+        = (joinWith [','] (((headerKeys m s).map String.toList).map csvField)
+            :: trace.map (fun r => csvRow N (rowColumns m s) r), []) := by
+  obtain ⟨⟨c, hc, hfile⟩, hfmt, _, hpo, _⟩ := build_ok_spec .append (.csv m s) rate none sink hb
+  simp only [openFile, Option.some.injEq] at hc
+  subst hc
+  obtain ⟨t, h1, h2, _⟩ :=
+    file_holds_one_record_per_written_response N persist sink queues schedule hpo (by rw [hfmt]; exact hw)
+  refine ⟨t, h2, ?_⟩
+  have hbal : ∀ r, SinkRead.Balanced (csvRow N (rowColumns m s) r) := by
+    intro r
+    have e : csvRow N (rowColumns m s) r
+        = joinWith [','] (((rowColumns m s).map fun c => cellValue N c.2 r).map csvField) := by
+      unfold csvRow
+      congr 1
+      simp only [List.map_map]
+      apply List.map_congr_left
+      intro c _
+      simp only [Function.comp, cellText, cellValue]
+      cases c.2.apply N r with
+      | none => simp [csvField, needsQuotes]
+      | some v => rfl
+    rw [e]; exact SinkRead.balanced_join _
+  have hrows : t.map (recordOf N sink.format) = (t.map (fun r => csvRow N (rowColumns m s) r)).map record := by
+    rw [List.map_map]
+    apply List.map_congr_left
+    intro r hr
+    have hmem : r ∈ queues.flatten := h2.subset (List.mem_append_left _ hr)
+    have hf := formatResponse_of_writable (hw r hmem)
+    simp only [Function.comp, recordOf, hfmt, (formatResponse_csv_cases N m s r _ _ hf).1]
+  have hhead : headerText (.csv m s) = record (joinWith [','] (((headerKeys m s).map String.toList).map csvField)) := by
+    simp only [headerText, initialContents, Option.getD_some, List.map_map, record]
+    rfl
+  have := SinkRead.splitRecords_records
+    (joinWith [','] (((headerKeys m s).map String.toList).map csvField) :: t.map (fun r => csvRow N (rowColumns m s) r))
+    (by
+      intro row hrow
+      rcases List.mem_cons.1 hrow with rfl | hrow
+      · exact SinkRead.balanced_join _
+      · obtain ⟨r, _, rfl⟩ := List.mem_map.1 hrow
+        exact hbal r)
+  rw [← this]
+  congr 1
+  simp only [FileSink.contents, h1, hfile, hrows, hhead]
+  simp
+
 /-! ## 6. Repeated runs append -/
 
 /-- a second run on the file a first run left (`WriteMode::Append`, the mode `build` always uses) keeps every
@@ -591,7 +902,9 @@ theorem first_run_starts_with_header (N : NumOps) (persist : Bool) (f : Format) 
 
 /-! ## 7. A JSON line determines the response -/
 
-/-- ROUND TRIP, proved for the model's serializer (`Sink.compact`, = `serde_json::to_string` by the
+/-- ROUND TRIP OF THE TEXT (structure, key order, strings with every escape, number LEXEMES; the doubles behind the
+lexemes are outside the model — `eraseBits` — and `numsOk` says that the model's numbers are written with number
+characters, as `serde_json`'s are), proved for the model's serializer (`Sink.compact`, = `serde_json::to_string` by the
 correspondence run) and the reader of `Model/SinkRead.lean`: a record parses back to the response that
 produced it.  Numbers come back as their lexemes (`eraseBits`: the double is a function of the lexeme). -/
 theorem json_record_parses_back (r : Json) (h : numsOk r = true) :
@@ -672,7 +985,8 @@ theorem json_array_form_contents (N : NumOps) (a b : Json) :
 /-- `WriteMode::open_file` at every kind of path.  A missing path is created with the header in every mode; a
 file: Append keeps it (no second header), Overwrite starts over with the header, Error refuses; a directory
 and a path without parent directory cannot be opened (Error refuses the directory: it exists); a device that
-refuses writes opens in Append mode (it exists: no header is written) and fails every later write. -/
+refuses writes opens in Append mode (it exists: no header is written) and fails every later write. 
+(Restates the model's definition — no proof about the code: the behaviour is tied to the Rust by the differential run.) -/
 theorem open_path_spec (f : Format) (c : List Char) :
     (∀ mode, openPath mode f .missing = .ok (headerText f) false) ∧
     openPath .append f (.file c) = .ok c false ∧
@@ -684,7 +998,8 @@ theorem open_path_spec (f : Format) (c : List Char) :
     openPath .append f .full = .ok [] true ∧ openPath .error f .full = .refused := by
   refine ⟨fun mode => rfl, rfl, rfl, rfl, rfl, rfl, rfl, fun mode => rfl, rfl, rfl⟩
 
-/-- on files and missing paths `openPath` is `openFile` (sections 4–6 speak about these) -/
+/-- on files and missing paths `openPath` is `openFile` (sections 4–6 speak about these) 
+(Restates the model's definition — no proof about the code: the behaviour is tied to the Rust by the differential run.) -/
 theorem open_path_on_files (mode : WriteMode) (f : Format) (c : List Char) :
     openPath mode f (.file c) = (match openFile mode f (some c) with | some c' => .ok c' false | none => .refused) ∧
     openPath mode f .missing = (match openFile mode f none with | some c' => .ok c' false | none => .refused) := by
@@ -792,7 +1107,8 @@ theorem discard_policy_swallows_write_failures (N : NumOps) (sink : FileSink) (q
 
 /-- `close` on a healthy sink appends exactly the closing record (empty for CSV and newline-delimited JSON,
 the bracket for the JSON array form) and reports the file name; on a poisoned or failing sink it is an
-error and changes nothing.  Nothing else ever writes the closing record: there is no `Drop`. -/
+error and changes nothing.  Nothing else ever writes the closing record: there is no `Drop`. 
+(Restates the model's definition — no proof about the code: the behaviour is tied to the Rust by the differential run.) -/
 theorem close_spec (s : FileSink) :
     (s.Healthy → s.close.file = s.file ++ [record ((finalContents s.format).getD [])] ∧
       s.closeName = some s.name) ∧
